@@ -5,7 +5,7 @@
 From Coq Require Import ZArith List Lia Bool.
 From GH Require Import Base.GoSem Base.Result Base.FloatBits Base.TimeSem Base.Utf8 Gen.GoConsts Gen.GoLeaf
   Model.Scalars Model.Strings Spec.Grammar Model.Encoder Model.Decoder Model.Session
-  Proofs.IntProofs Proofs.KindProofs Proofs.StringProofs Proofs.EncoderFacts Proofs.SessionProofs Proofs.StructFacts
+  Proofs.IntProofs Proofs.KindProofs Proofs.StringProofs Proofs.BinaryProofs Proofs.DateProofs Proofs.FloatFacts Proofs.DoubleProofs Proofs.SpecScalars Proofs.EncoderFacts Proofs.SessionProofs Proofs.StructFacts
   Proofs.EncSpec.
 Import ListNotations.
 Open Scope Z_scope.
@@ -104,6 +104,7 @@ Fixpoint need_d (v : gval) : nat :=
   match v with
   | VStruct _ _ fs =>
     3 + (fix go (l : list (name * gval)) : nat := match l with [] => 1 | (_, x) :: r => 1 + Nat.max (need_d x) (go r) end) fs
+  | VBytes _ => 2
   | _ => 1
   end%nat.
 Fixpoint need_ditems (l : list gval) : nat := match l with [] => 1 | x :: r => 1 + Nat.max (need_d x) (need_ditems r) end%nat.
@@ -127,6 +128,9 @@ Inductive sgv : gtype -> gval -> Prop :=
 | sg_int k z : in_kind k z -> sgv (TInt k) (VInt k z)
 | sg_bool b : sgv TBool (VBool b)
 | sg_str rs : Forall valid_rune rs -> sgv TStr (VStr rs)
+| sg_f64 b : in_f64 b -> sgv TF64 (VF64 b)
+| sg_bytes bs : sgv TBytes (VBytes bs)
+| sg_time s n : year_ok s -> 0 <= n < 1000000000 -> sgv TTime (VTime s n)
 | sg_nilptr n : sgv (TPtr (TStruct n)) VNil
 | sg_seen a : sgv (TPtr (TStruct (ty_of a))) (VSeen RStruct a)
 | sg_struct a ty fs c gfs : a <> 0 -> ty_of a = ty -> nm_lookup nm ty = Some c -> tm_lookup tm c = Some (TStruct ty) ->
@@ -141,6 +145,10 @@ Inductive dg : list (Z * rkind) -> gval -> dval -> list rcell -> list (Z * rkind
 | dg_int refs k z : dg refs (VInt k z) (DInt k z) [] refs
 | dg_bool refs b : dg refs (VBool b) (DBool b) [] refs
 | dg_str refs rs : dg refs (VStr rs) (DStr rs) [] refs
+| dg_f64 refs b d : feq d b = true -> dg refs (VF64 b) (DF64 d) [] refs                 (* the same number *)
+| dg_bytes refs bs : dg refs (VBytes bs) (DBytes bs) [] refs
+| dg_time0 refs s n : time_is_zero s n = true -> dg refs (VTime s n) (DTime zero_time_sec 0) [] refs
+| dg_time refs s n : time_is_zero s n = false -> dg refs (VTime s n) (DTime s (n - n mod 1000000)) [] refs   (* to the millisecond *)
 | dg_nil refs : dg refs VNil DNil [] refs
 | dg_seen refs a i : ref_find refs a RStruct 0 = Some i -> dg refs (VSeen RStruct a) (DPtr (Z.to_nat i) (ty_of a)) [] refs
 | dg_hit refs a ty fs i : ref_find refs a RStruct 0 = Some i -> dg refs (VStruct a ty fs) (DPtr (Z.to_nat i) (ty_of a)) [] refs
@@ -390,6 +398,58 @@ Proof.
     + intros a0 ty0 fs1 _. rewrite rd_S, rd_classdef, RC. cbn [bind snd]. rewrite rd_S, OT2, OA by lia. reflexivity.
 Qed.
 
+(* ---- further leaves: doubles, byte slices, timestamps ---- *)
+Lemma take_n_app_exact : forall n r x rest, take_n n r = Some (x, []) -> take_n n (r ++ rest) = Some (x, rest).
+Proof.
+  induction n as [|n IH]; intros r x rest H; cbn [take_n] in *.
+  - inversion H; subst. reflexivity.
+  - destruct r as [|b r0]; [discriminate|]. cbn [app]. destruct (take_n n r0) as [[x0 r1]|] eqn:E; [|discriminate].
+    inversion H; subst. rewrite (IH _ _ rest E). reflexivity.
+Qed.
+Lemma read_full_app_exact n r x rest : read_full n r = Ok (x, []) -> read_full n (r ++ rest) = Ok (x, rest).
+Proof.
+  unfold read_full. destruct n as [|n]; [intros H; inversion H; subst; reflexivity|].
+  destruct r as [|b r0]; [discriminate|]. cbn [app]. destruct (take_n (S n) (b :: r0)) as [[x0 r1]|] eqn:E; [|discriminate].
+  intros H. inversion H; subst. change (b :: r0 ++ rest) with ((b :: r0) ++ rest). rewrite (take_n_app_exact _ _ _ rest E). reflexivity.
+Qed.
+Lemma decode_double_ext bs d : decode_double bs = Ok (d, []) -> forall rest, decode_double (bs ++ rest) = Ok (d, rest).
+Proof.
+  unfold decode_double. destruct bs as [|t r]; [discriminate|]. cbn [read_tag bind app]. unfold decode_double_tag. intros H rest.
+  destruct (t =? g_doubleZeroTag); [inversion H; subst; reflexivity|]. destruct (t =? g_doubleOneTag); [inversion H; subst; reflexivity|].
+  destruct (t =? g_doubleOneByteTag).
+  { destruct r as [|b r0]; [discriminate|]. cbn [read_tag bind app] in *. inversion H; subst. reflexivity. }
+  destruct (t =? g_doubleTwoByteTag).
+  { destruct (read_full 2 r) as [[bf r']| | |] eqn:E; try discriminate. cbn [bind] in H. inversion H; subst. rewrite (read_full_app_exact _ _ _ rest E). reflexivity. }
+  destruct (t =? g_doubleFourByteTag).
+  { destruct (read_full 4 r) as [[bf r']| | |] eqn:E; try discriminate. cbn [bind] in H. inversion H; subst. rewrite (read_full_app_exact _ _ _ rest E). reflexivity. }
+  destruct (t =? g_doubleLongStartTag); [|discriminate].
+  destruct (read_full 8 r) as [[bf r']| | |] eqn:E; try discriminate. cbn [bind] in H. inversion H; subst. rewrite (read_full_app_exact _ _ _ rest E). reflexivity.
+Qed.
+Lemma rl_S f fl dst bs : R_rl (readers_at te tm (S f)) fl dst bs = rl_step tm (readers_at te tm f) fl dst bs.
+Proof. reflexivity. Qed.
+Lemma binary_head bs : exists t tl, encode_binary bs = t :: tl /\ gbinaryTag t = true /\ forall rest, decode_binary_tag t (tl ++ rest) = Ok (bs, rest).
+Proof.
+  destruct (binary_denotes bs []) as (t & tl & E & T & _). exists t, tl. split; [exact E|]. split.
+  - unfold is_binary_tag, rng in T. unfold gbinaryTag, gbinaryShortTag, gbinaryMiddleTag, gbinaryChunkTag. lia.
+  - intros rest. pose proof (binary_roundtrip bs rest) as B. rewrite E in B. exact B.
+Qed.
+Lemma rt_bytes bs st : cls_ok F (ecls st) -> rt_post TBytes (VBytes bs) st (emit st (encode_binary bs)).
+Proof.
+  intros C. split; [exact C|]. split; [reflexivity|]. split; [split; cbn; lia|].
+  exists (encode_binary bs), (DBytes bs), []. split; [apply ebytes_emit|]. split; [constructor|].
+  intros _ dst rest I. exists dst. split; [exact I|]. split; [rewrite app_nil_r; reflexivity|]. split; [reflexivity|].
+  destruct (binary_head bs) as (t & tl & E & T & D).
+  intros f Hf. cbn [need_d] in Hf. destruct f as [|[|f]]; try lia. split; [|intros a ty fs X; discriminate].
+  rewrite rf_S. unfold rf_step. rewrite rl_S. unfold rl_step. rewrite E. cbn [app bind]. rewrite T, D. cbn [bind set_slice]. reflexivity.
+Qed.
+Lemma date_head s n : time_is_zero s n = false -> exists t tl, gencodeDate s n = t :: tl /\ (t = 74 \/ t = 75).
+Proof.
+  intros Z0. unfold gencodeDate. rewrite Z0. destruct (negb (n =? 0) || (s <? -2147483648) || (2147483647 <? s)); cbv zeta; eexists; eexists; (split; [reflexivity|]); [left|right]; reflexivity.
+Qed.
+Lemma rs_date R st t r : t = 74 \/ t = 75 ->
+  read_struct tm R st (t :: r) = (do (x, r') <- decode_date_tag t r ;; Ok (DTime (fst x) (snd x), r', st)).
+Proof. intros [->| ->]; reflexivity. Qed.
+
 (* ---- the theorem ---- *)
 Theorem graph_roundtrip : forall v, rt_ok v.
 Proof.
@@ -398,13 +458,28 @@ Proof.
     eapply rt_leaf; [constructor|intros; discriminate|exact C|]. intros R dst rest. reflexivity.
   - (* bool *) inversion Hs; subst. cbn [write_data] in W. inversion W; subst st'.
     eapply rt_leaf; [constructor|intros; discriminate|exact C|]. intros R dst rest. apply field_bool_roundtrip.
-  - (* integers *) inversion Hs as [? ? IK| | | | |]; subst. cbn [write_data] in W.
+  - (* integers *) inversion Hs; subst. cbn [write_data] in W.
     destruct (enc_kind k z) as [bs| | |] eqn:E; inversion W; subst st'.
     eapply rt_leaf; [constructor|intros; discriminate|exact C|]. intros R dst rest. apply field_int_roundtrip; assumption.
-  - (* string *) inversion Hs as [| |? V| | |]; subst. cbn [write_data] in W. inversion W; subst st'.
-    eapply rt_leaf; [constructor|intros; discriminate|exact C|]. intros R dst rest. apply field_string_roundtrip. exact V.
+  - (* float64 *) inversion Hs; subst. cbn [write_data] in W. unfold write_double in W.
+    destruct (gencodeDouble b) as [bs| | |] eqn:E; inversion W; subst st'.
+    match goal with H : in_f64 b |- _ => destruct (double_roundtrip b [] bs H E) as (d & D & Fq) end. rewrite app_nil_r in D.
+    eapply (rt_leaf TF64 (VF64 b) st bs (DF64 d)); [apply dg_f64; exact Fq|intros; discriminate|exact C|].
+    intros R dst rest. unfold rf_step. rewrite (decode_double_ext bs d D rest). reflexivity.
+  - (* string *) inversion Hs; subst. cbn [write_data] in W. inversion W; subst st'.
+    eapply rt_leaf; [constructor|intros; discriminate|exact C|]. intros R dst rest. apply field_string_roundtrip. assumption.
+  - (* bytes *) inversion Hs; subst. cbn [write_data] in W. inversion W; subst st'. apply rt_bytes. exact C.
+  - (* time *) inversion Hs; subst. cbn [write_data] in W. inversion W; subst st'.
+    destruct (time_is_zero s n) eqn:Z0.
+    + assert (G : gencodeDate s n = [78]) by (unfold gencodeDate; rewrite Z0; reflexivity). rewrite G.
+      eapply rt_leaf; [apply dg_time0; exact Z0|intros; discriminate|exact C|]. intros R dst rest. reflexivity.
+    + destruct (date_head s n Z0) as (t0 & tl & E & T).
+      eapply rt_leaf; [apply dg_time; exact Z0|intros; discriminate|exact C|]. intros R dst rest.
+      pose proof (date_roundtrip s n rest ltac:(assumption) ltac:(assumption) Z0) as DR. rewrite E in DR |- *. cbn [app] in DR |- *.
+      unfold decode_date in DR. cbn [read_tag bind] in DR.
+      unfold rf_step. rewrite rs_date by exact T. rewrite DR. cbn [bind fst snd set_value]. reflexivity.
   - (* struct *)
-    inversion Hs as [| | | | |? ? ? c gfs NZ TA NL TM TE HN FFD Vc HF VF LN H2]; subst.
+    inversion Hs as [| | | | | | | |? ? ? c gfs NZ TA NL TM TE HN FFD Vc HF VF LN H2]; subst.
     rewrite write_data_struct in W. unfold check_ref in W.
     destruct (ref_find (erefs st) a RStruct 0) as [i|] eqn:RF.
     + inversion W; subst st'. apply rt_ref; [exact RF|apply dg_hit; exact RF|exact C].
@@ -426,7 +501,7 @@ Proof.
   intros Hs W Sm.
   destruct (graph_roundtrip _ _ (estate0 nm) st' eq_refl Hs (fun c fs0 (I : In (c, fs0) []) => match I with end) W)
     as (_ & _ & _ & bs & d & cells & B & D & P).
-  inversion D as [| | | | |? ? ? ? ? RF|? ? ? ? ds cells' ? RF DS]; subst; [discriminate|].
+  inversion D as [| | | | | | | | |? ? ? ? ? RF|? ? ? ? ds cells' ? RF DS]; subst; [discriminate|].
   exists ds, cells'. split; [exact DS|]. intros f Hf.
   destruct (P Sm dstate0 [] (conj eq_refl eq_refl)) as (dst' & _ & HH & _ & V).
   exists dst'. destruct (V f Hf) as [_ V2]. split; [|exact HH].
